@@ -53,6 +53,99 @@ struct GrammarCase {
     docs: Vec<DocExpect>,
 }
 
+#[derive(Deserialize)]
+struct RefOp {
+    op: String,
+    loc: Loc,
+    path: Cps,
+    exists: bool,
+    value: SVal,
+    after: SVal,
+}
+
+/// A history of reads and writes through paths (RefStore.tla).
+#[derive(Deserialize)]
+struct RefCase {
+    id: Value,
+    doc: SVal,
+    ops: Vec<RefOp>,
+}
+
+fn check_refstore(c: &RefCase, out: &mut Out, stats: &mut HashMap<String, u64>) {
+    use verif_harness::addr::lookup;
+    let mut doc = c.doc.to_value();
+    let initial = doc.clone();
+    // every path a query returns can be fed back to read the node it was reported for
+    {
+        *stats.entry("refstore_feedback".into()).or_default() += 1;
+        let am = AddrMap::new(&doc);
+        if let Ok(Ok(rs)) = guarded(|| doc.query_with_path("$..*")) {
+            for r in rs {
+                let v = r.clone().val();
+                let p = r.path();
+                let got = guarded(|| doc.reference(p.clone()).map(|x| x as *const Value)).unwrap_or(None);
+                if got != Some(v as *const Value) {
+                    let loc = am.loc_of(v).cloned().unwrap_or_default();
+                    out.mismatch(json!({"kind":"mismatch","check":"refstore","repr":"Value","id":c.id,"q":p,"doc":initial,"op":"feedback",
+                        "node_loc":loc,"node":loc_display(&loc),"actual_path":p,
+                        "what": if got.is_none() { "a path reported by a query is not resolved by reference (None)" } else { "a path reported by a query resolves to a different node" }}));
+                }
+            }
+        }
+    }
+    for (n, o) in c.ops.iter().enumerate() {
+        *stats.entry(format!("refstore_{}", o.op)).or_default() += 1;
+        let path = cps_to_string(&o.path);
+        let mk = |what: &str, doc: &Value| json!({"kind":"mismatch","check":"refstore","repr":"Value","id":c.id,"q":path,"doc":initial,
+            "op":o.op,"op_index":n,"node_loc":o.loc,"node":loc_display(&o.loc),"exists":o.exists,"what":what,"doc_now":doc,
+            "history": c.ops.iter().take(n + 1).map(|x| format!("{} {}", x.op, cps_to_string(&x.path))).collect::<Vec<_>>()});
+        let expected_node: Option<*const Value> = lookup(&doc, &o.loc).map(|v| v as *const Value);
+        if expected_node.is_some() != o.exists {
+            eprintln!("TOOL-ERROR refstore: spec and harness disagree on existence of {} in {}", loc_display(&o.loc), doc);
+            std::process::exit(2);
+        }
+        if o.op == "ref" {
+            match guarded(|| doc.reference(path.clone()).map(|v| v as *const Value)) {
+                Err(p) => { let mut m = mk("panic in reference", &doc); m["detail"] = json!(p); out.mismatch(m); return; }
+                Ok(got) => {
+                    if got != expected_node {
+                        let what = match (got, expected_node) {
+                            (None, Some(_)) => "reference returned None for the path of an existing node",
+                            (Some(_), None) => "reference returned a node for a path to a location that does not exist",
+                            _ => "reference returned a different node than the one the path denotes",
+                        };
+                        out.mismatch(mk(what, &doc));
+                        return;
+                    }
+                }
+            }
+        } else {
+            let newv = o.value.to_value();
+            let before = doc.clone();
+            let res = guarded(|| match doc.reference_mut(path.clone()) {
+                Some(r) => { *r = newv.clone(); true }
+                None => false,
+            });
+            match res {
+                Err(p) => { let mut m = mk("panic in reference_mut", &before); m["detail"] = json!(p); out.mismatch(m); return; }
+                Ok(found) => {
+                    let want = o.after.to_value();
+                    if found != o.exists || doc != want {
+                        let what = if found && !o.exists { "reference_mut returned a handle for a path to a location that does not exist" }
+                                   else if !found && o.exists { "reference_mut returned None for the path of an existing node" }
+                                   else { "writing through reference_mut changed something other than exactly that node" };
+                        let mut m = mk(what, &before);
+                        m["doc_after"] = json!(doc);
+                        m["doc_expected"] = json!(want);
+                        out.mismatch(m);
+                        return;
+                    }
+                }
+            }
+        }
+    }
+}
+
 struct Out {
     buf: Vec<Value>,
     mismatches: u64,
@@ -354,6 +447,30 @@ fn main() {
     for line in stdin.lock().lines() {
         let line = line.expect("read");
         if line.trim().is_empty() {
+            continue;
+        }
+        if line.contains("\"mode\":\"refstore\"") {
+            let c: RefCase = match serde_json::from_str(&line) {
+                Ok(c) => c,
+                Err(e) => {
+                    eprintln!("TOOL-ERROR bad refstore line: {e}: {}", &line[..line.len().min(200)]);
+                    std::process::exit(2);
+                }
+            };
+            cases += 1;
+            if c.ops.iter().any(|o| o.exists) {
+                nonempty += 1;
+            }
+            {
+                use std::hash::{Hash, Hasher};
+                let mut h = std::collections::hash_map::DefaultHasher::new();
+                line.hash(&mut h);
+                distinct.insert(h.finish());
+            }
+            check_refstore(&c, &mut out, &mut stats);
+            for v in out.buf.drain(..) {
+                writeln!(w, "{}", v).unwrap();
+            }
             continue;
         }
         if line.contains("\"verdict\":") {
